@@ -562,13 +562,28 @@ def check_template_constancy(rep, rule):
     base = err.cls('HTTPException')
     fam = [base] + repo.subclasses(base, [err])
     n = 0
-    for m, servers in family_methods(repo, fam):
-        c, name = (m.cls if isinstance(m.cls, ClassInfo) else servers[0]), m.name
-        if not name.startswith('to_') or name in ('to_dict', 'to_escaped_dict'):
+    work, seen_fns = [], set()
+    for m0, servers in family_methods(repo, fam):
+        c0, name0 = (m0.cls if isinstance(m0.cls, ClassInfo) else servers[0]), m0.name
+        if not name0.startswith('to_') or name0 in ('to_dict', 'to_escaped_dict'):
             continue
-        if name in ('to_html', 'to_xml'):
-            # a serialiser that only hands the escaped mapping to a module-level function: the template is formatted there
-            m = markup_delegate(repo, m)[0]
+        work.append((m0, c0, name0))
+        seen_fns.add(id(m0.node))
+        # the module-level functions of the analysed tree a serialiser hands its fields to (``return render_html(
+        # self.to_escaped_dict())``, possibly in another module of the package): the formatting they do is the serialiser's
+        todo = [(m0, 0)]
+        while todo:
+            fi_, d_ = todo.pop()
+            if d_ >= 2:
+                continue
+            for c_ in walk_body(fi_.node):
+                if isinstance(c_, ast.Call) and isinstance(c_.func, ast.Name):
+                    g = _resolve_callee(repo, fi_.mod, fi_, c_)
+                    if g is not None and not isinstance(g.cls, ClassInfo) and isinstance(g.node, ast.FunctionDef) and id(g.node) not in seen_fns:
+                        seen_fns.add(id(g.node))
+                        work.append((g, c0, name0))
+                        todo.append((g, d_ + 1))
+    for m, c, name in work:
         params = set(_param_names(m))
 
         def const_value(v):
